@@ -88,14 +88,21 @@ impl CredentialStore for MemoryStore {
     async fn find_credentials(
         &self,
         allow_credentials: Option<&[PublicKeyCredentialDescriptor]>,
-        _rp_id: &str,
+        rp_id: &str,
     ) -> Result<Vec<Self::PasskeyItem>, StatusCode> {
-        let creds: Vec<Passkey> = allow_credentials
-            .into_iter()
-            .flatten()
-            .filter_map(|id| self.get(&*id.id))
-            .cloned()
-            .collect();
+        let creds: Vec<Passkey> = match allow_credentials {
+            Some(ids) => ids
+                .iter()
+                .filter_map(|id| self.get(&*id.id))
+                .cloned()
+                .collect(),
+            // Without a list of ids, all the credentials bound to the relying party are eligible.
+            None => self
+                .values()
+                .filter(|pk| pk.rp_id == rp_id)
+                .cloned()
+                .collect(),
+        };
         if creds.is_empty() {
             Err(Ctap2Error::NoCredentials.into())
         } else {
@@ -133,15 +140,15 @@ impl CredentialStore for Option<Passkey> {
     async fn find_credentials(
         &self,
         id: Option<&[PublicKeyCredentialDescriptor]>,
-        _rp_id: &str,
+        rp_id: &str,
     ) -> Result<Vec<Self::PasskeyItem>, StatusCode> {
         if let Some(id) = id {
             id.iter().find_map(|id| {
-                // TODO: && pk.rp_id == rp_id) need rp_id on typeshared passkey
-                self.clone().filter(|pk| pk.credential_id == id.id)
+                self.clone()
+                    .filter(|pk| pk.credential_id == id.id && pk.rp_id == rp_id)
             })
         } else {
-            self.clone() // TODO: .filter(|pk| pk.rp_id == rp_id) need rp_id on typeshared passkey
+            self.clone().filter(|pk| pk.rp_id == rp_id)
         }
         .map(|pk| vec![pk])
         .ok_or(Ctap2Error::NoCredentials.into())
